@@ -33,6 +33,11 @@ def canary():
 
 def run(ctx):
     progs = programs(ctx)
+    # recorded finding (see known_findings.jsonl): a false #[cfg] on a tuple field in front of the compared ones, attribute entry point
+    progs.append(E.Prog("p_cfg_tuple", "#[derive_ex::derive_ex(Ord, PartialOrd, Eq, PartialEq)]\n#[derive(Debug)]\npub struct A(#[cfg(any())] pub u8, pub u32, #[ord(ignore)] pub u32);\n\n"
+                        "pub fn ncheck() -> Vec<String> { let mut out = Vec::new(); if A(1, 0) != A(1, 5) || Ord::cmp(&A(1, 0), &A(1, 5)) != Ordering::Equal { out.push(\"the #[ord(ignore)] field takes part in the comparison (field indices shifted by the removed field)\".to_string()); } out }\n"
+                        "pub fn replay(_h: &str, _b: &[u8]) -> (bool, String) { (true, String::new()) }\n", [],
+                        {"describe": "#[derive_ex(Ord, PartialOrd, Eq, PartialEq)] struct A(#[cfg(any())] u8, u32, #[ord(ignore)] u32);"}, ncheck=True))
     st = E.run_family(ctx, "C01", progs, canary())
     g = glayer.run_g(ctx, G_UNITS)
     ctx.assumptions += [
